@@ -22,6 +22,7 @@ import (
 	"sort"
 	"strings"
 	"sync"
+	"sync/atomic"
 	"syscall"
 	"time"
 
@@ -553,7 +554,25 @@ func (in *c02Inst) walk(p []string) (*node, syscall.Errno) {
 	return d, 0
 }
 
-func (in *c02Inst) read(f int, off int64, length int) (res map[string]any) {
+// c02Hung is set when a read did not return: a hanging read is recorded as a failed read (never equal to the
+// source), the walks stop recording further steps and the test ends instead of spinning until the go test timeout.
+var c02Hung atomic.Bool
+
+const c02ReadTimeout = 30 * time.Second
+
+func (in *c02Inst) read(f int, off int64, length int) map[string]any {
+	ch := make(chan map[string]any, 1)
+	go func() { ch <- in.readInner(f, off, length) }()
+	select {
+	case r := <-ch:
+		return r
+	case <-time.After(c02ReadTimeout):
+		c02Hung.Store(true)
+		return map[string]any{"n": 0, "err": true, "bytes": []int{}, "msg": fmt.Sprintf("hang: read did not return within %v", c02ReadTimeout)}
+	}
+}
+
+func (in *c02Inst) readInner(f int, off int64, length int) (res map[string]any) {
 	res = map[string]any{"n": 0, "err": false, "bytes": []int{}}
 	// a panic of the read path while serving a well-formed layer is recorded as what it is: a failed read
 	defer func() {
@@ -826,6 +845,9 @@ func c02Replay(b *c02Built, store metadata.Store, storeName string, j c02Job) ([
 			defer in.close()
 			tr := []map[string]any{in.resetEvent(storeName)}
 			for _, s := range w {
+				if c02Hung.Load() {
+					break
+				}
 				tr = append(tr, in.step(s))
 			}
 			traces[wi] = tr
@@ -869,7 +891,7 @@ func c02Free(b *c02Built, store metadata.Store, storeName string, j c02Job) ([][
 			go func() {
 				defer wg.Done()
 				rng := rand.New(rand.NewSource(base*1000003 + int64(ti)*101 + int64(g)))
-				for i := 0; i < j.Reads; i++ {
+				for i := 0; i < j.Reads && !c02Hung.Load(); i++ {
 					f := files[rng.Intn(len(files))]
 					off := rng.Intn(sizeOf[f] + 2)
 					length := 1 + rng.Intn(b.maxSize+2)
